@@ -32,7 +32,7 @@ Proof.
   unfold key_scan. replace (mem_N c in_tokenize_0) with false by charfact.
   rewrite print_pline_flat in Hr. rewrite (mean_pline_flat l) at 2. rewrite print_pline_flat.
   apply (scan_plain_flat true (sp ksp ++ 58 :: x :: t) (sp ksp)).
-  - intros f. apply tailspec_key. destruct Hx; subst; reflexivity.
+  - intros f. apply tailspec_key. destruct Hx as [Hx|[Hx|Hx]]; subst; reflexivity.
   - rewrite app_length. cbn [length]. lia.
   - exact Hw.
   - exact Hfl.
@@ -98,21 +98,3 @@ Proof.
   destruct it as [n t tr|k ksp v tr]; cbn [print_item]; rewrite ?app_length; cbn [length]; lia.
 Qed.
 
-Theorem block_agree b : wf_block b = true -> Forall item_ok (b_items b) ->
-  options_to_items (print_block b) = Ok (meaning_block b).
-Proof.
-  intros Hwf Hok. unfold wf_block in Hwf. apply andb_true_iff in Hwf as [Hwf Hadj].
-  unfold options_to_items, tokenize.
-  set (s := new_stream (print_block b)).
-  assert (Hinv : tok_inv s (blanks (b_lead b)) (b_items b)).
-  { split; [|split].
-    - unfold s, new_stream. cbn [s_rest]. unfold print_block. rewrite print_blanks.
-      replace CHARS_END with [0] by reflexivity. rewrite <- app_assoc. reflexivity.
-    - apply wf_blanks.
-    - reflexivity. }
-  destruct (tokenize_f_spec (length (b_items b)) (b_items b) (le_n _) (fuel_of s) s _ Hwf Hadj Hok Hinv)
-    as (toks & Ht & Hs).
-  { unfold fuel_of. destruct Hinv as [Hr _]. rewrite Hr, !app_length.
-    pose proof (print_items_length _ Hwf). lia. }
-  rewrite Ht. rewrite meaning_block_items. apply to_items_shape. exact Hs.
-Qed.
